@@ -625,6 +625,15 @@ class IMMachine(FormatMachine):
         dup["checksums"] = dict((k, val + "0") for k, val in dup["checksums"].items())
         if not op.get("same_path"):
             dup["path"] = dup["path"] + ".dup"
+        raw = op.get("raw")
+        # the colliding entry may SPELL the same identity differently: a key the reader defaults left out, a number as text
+        if raw == "drop-format" and dup.get("format") == "iso":
+            dup.pop("format")
+        elif raw == "str-disc":
+            dup["disc_number"] = str(dup["disc_number"])
+        elif raw == "drop-unified" and dup.get("unified") is False and not dup.get("additional_variants"):
+            dup.pop("unified", None)
+            dup.pop("additional_variants", None)
         where = op.get("where", "same-cell")
         if where == "same-cell":
             cells[v][a].append(dup)
